@@ -77,7 +77,7 @@ def two_stage_finalize(ctx, make_stage2, what="statistic"):
             continue
         for name, z1 in r["extra"]["flags"].items():
             z2 = r2["extra"]["stats"].get(name)
-            confirmed = z2 is not None and (not np.isfinite(z2) or abs(z2) > Z_FLAG) and (np.sign(z2) == np.sign(z1))
+            confirmed = z2 is not None and (not np.isfinite(z2) or abs(z2) > Z_FLAG) and ((np.isnan(z1) and np.isnan(z2)) or np.sign(z2) == np.sign(z1))
             if confirmed:
                 ctx.violation(r["extra"].get("mech", "distribution") + ":" + name.split("|")[0],
                               f"{what} '{name}' flagged at stage 1 (z={z1:.2f}) and confirmed at stage 2 with 4x the sample "
